@@ -197,6 +197,57 @@ def check_cases(chk, cases):
                 chk.fail("user functions are evaluated at the pre-image of z", case, "points handed to the likelihood differ from inverse(z)", {**sig, "clause": "preimage"})
 
 
+def gen_run_cfg(r, i):
+    """whole runs whose loop may end below temperature 1 (step cap with an explicit minimum step) and whose final set is
+    enlarged or shrunk: the kernel must always be handed the target at the temperature of the population it moves"""
+    cfg = {"seed": int(r.integers(1, 10000)), "n_samples": int(r.choice([10, 16])), "dims": int(r.choice([1, 2])), "kernel_steps": 2,
+           "like_width": float(r.choice([0.05, 0.3, 1.0])), "sampler": ["minipcn_smc", "emcee_smc"][i % 2]}
+    mode = i % 4
+    if mode == 0:
+        cfg.update(max_n_steps=int(r.choice([1, 2, 3])), min_step=float(r.choice([1e-3, 0.01, 0.05])))
+    elif mode == 1:
+        cfg.update(adaptive=False, n_steps=int(r.choice([2, 3])))
+    elif mode == 2:
+        cfg.update(max_n_steps=int(r.choice([2, 4])))
+    if cfg["sampler"] == "emcee_smc":
+        cfg.pop("min_step", None), cfg.pop("max_n_steps", None)
+        cfg["n_samples"] = 16
+    cfg["n_final_samples"] = [None, int(cfg["n_samples"] * 2), max(4, int(cfg["n_samples"] // 2))][i % 3]
+    return cfg
+
+
+def check_runs(chk, cfgs):
+    from .. import smcrun
+
+    for cfg in cfgs:
+        res = smcrun.run_smc(cfg)
+        chk.case(None, json.dumps(cfg))
+        chk.count("run-level")
+        if smcrun.collapsed_population(res):
+            chk.count("skipped:population_collapsed_rejected_by_library")
+            continue
+        case = {"level": "run", "cfg": cfg}
+        if res["status"] != "done":
+            chk.fail("run total", case, repr(res.get("exc")), {"clause": "raise", "level": "run"})
+            continue
+        betas = [float(b) for b in res["sampler"].history.beta]
+        if betas and betas[-1] < 1.0:
+            chk.count("run-level:loop_ended_below_one")
+        for t, rec in enumerate(res["mutate_trace"]):
+            expect = betas[t] if t < len(betas) else 1.0      # iteration t moves to beta_t; the enlargement happens at temperature 1
+            if t >= len(betas):
+                chk.count("run-level:final_enlargement")
+            bad = [b for b in rec["target_betas"] if b is None or b != expect]
+            if rec["pop_beta"] is not None and rec["pop_beta"] != expect:
+                bad.append(rec["pop_beta"])
+            if bad or not rec["target_betas"]:
+                chk.fail("kernel target equals (1-b) log q + b (log L + log pi) + log|J| at the pre-image", dict(case, mutate_call=t),
+                         f"mutation {t}: the population carries temperature {rec['pop_beta']}, the step's temperature is {expect}, "
+                         f"but the kernel's target was evaluated at temperature(s) {sorted(set(bad))[:3]} ({len(rec['target_betas'])} evaluations)",
+                         {"clause": "run_beta", "level": "run"})
+                break
+
+
 def run(chk: core.Check):
     r = np.random.default_rng(chk.seed + 5005)
     quick = chk.tier == "quick"
@@ -208,6 +259,7 @@ def run(chk: core.Check):
     cases = [gen_case(r, i, chk.tier) for i in range(315 if quick else 6300)]
     for i in range(0, len(cases), 315):
         check_cases(chk, cases[i:i + 315])
+    check_runs(chk, [gen_run_cfg(r, i) for i in range(24 if quick else 400)])
 
     def search():
         sub = core.Check(chk.pid, chk.tier, chk.seed)
@@ -223,6 +275,8 @@ def replay(chk: core.Check, path: str) -> int:
     doc = json.loads(open(path).read())
     p = doc["payload"]
     cases = [p["case"]] if "case" in p else [d["case"] for d in p.get("correspondence", [])]
+    check_runs(chk, [dict(c["cfg"]) for c in cases if c.get("level") == "run"])
+    cases = [c for c in cases if c.get("level") != "run"]
     check_cases(chk, cases)
     for f in chk.failures[:10]:
         print("FAIL", f["clause"], f["detail"])
